@@ -4,7 +4,7 @@ from harness import scratch, tlc, evidence, bases, libproj, libio
 from checks import common
 
 PID = "C08"
-VOCAB = [["x", "a0", "a1", "a2", "0", "1", "-1", "2", "-3", "10"], ["inv", "exp"], ["+", "*", "pow"]]
+VOCAB = [["x", "a0", "a1", "a2", "0", "1", "-1", "2", "-3", "10"], ["inv", "exp", "abs"], ["+", "*", "pow"]]      # abs: an operator whose name starts like a parameter
 
 
 def close(a, b):
@@ -86,7 +86,7 @@ def run(tier, replay=None):
                     r.violation("%s:n%d:regenerated:lines" % (name, n), "after generating twice into the same directory %d lines of aifeyn_%d.txt no longer belong to the tree on the same line (first: line %d)" % (
                         len(bad2), n, bad2[0]), {"runname": name, "n": n, "lines": bad2[:20]})
                 r.add("library_regenerated", evaluations=len(ev2), nontrivial=1, traces=1)
-    r.cov["rule"] = ("(A) every well-formed label list with <= %d labels over a vocabulary with 2 unary, 3 binary operators, x, a0..a2 and the "
+    r.cov["rule"] = ("(A) every well-formed label list with <= %d labels over a vocabulary with 3 unary (one named abs), 3 binary operators, x, a0..a2 and the "
                      "integers {0,1,-1,2,-3,10}: both APIs vs the closed form evaluated from the model's integers (k, nsym, consts); non-trivial = lists "
                      "with an integer constant or two distinct parameters. (B) every line of aifeyn_n.txt vs Trees!Code of the tree on the same line "
                      "(non-trivial = rewritten trees, which carry integers)" % nmax)
